@@ -75,6 +75,8 @@ class Index:
     cardinality = 1
     enabled = True
     prefix = b""
+    # index entries are <key>\x00<4 bytes time>\x00<32 bytes id>
+    has_time = True
 
     def __init__(self):
         self.hits = self.misses = 0
@@ -123,6 +125,10 @@ class Index:
             since = since.to_bytes(4, "big")
         if until is not None:
             until = until.to_bytes(4, "big")
+        if not self.has_time:
+            # the keys carry no time; the matcher checks the time range
+            since = until = None
+        if until is not None:
             add_time = b"\x00%s\x00" % until
         else:
             add_time = b""
@@ -216,6 +222,7 @@ class Index:
 class IdIndex(Index):
     prefix = b"\x00"
     cardinality = 1000
+    has_time = False
 
     def to_key(self, value) -> bytes:
         return self.prefix + bytes_from_hex(value)
